@@ -72,7 +72,7 @@ P = {
 }
 # generators added after the fourth round of independently seeded changes (DESIGN.md 8.4 (v))
 ADD = {
- "C14": "Tracks filled through a composition are augmented in turn (the others must not move); tuned from_chords tracks are augmented (each entry rises exactly once). from_chords is applied to tracks in every key: opened bars inherit key and meter. selected_tracks may hold indices written from the end.",
+ "C14": "Tracks filled through a composition are augmented in turn (the others must not move); tuned from_chords tracks are augmented (each entry rises exactly once). from_chords is applied to tracks in every key: opened bars inherit key and meter. selected_tracks may hold indices written from the end. from_chords runs with every instrument kind and with generic instruments narrowed by set_range (the first out-of-range chord raises the range error and is not placed). Objects shared between tracks of a composition are found by identity (only objects the caller handed in may sit in two tracks).",
  "C12": "The from_* constructors are also applied to used containers, to slash chords over their own notes and to polychords of chords that share notes.",
  "C06": "Malformed parts are also embedded inside polychords. The empty chord is also the lower part of slash chords (own-root basses included).",
  "C05": "Recognition questions of 8-30 entries with repeats are sampled. Each instance is checked after scales of the same kind and tonic over other octave counts were asked; recognition is asked with lists, tuples, sets, iterators and generators. Diatonic positions are also written in descending order.",
@@ -85,12 +85,12 @@ ADD = {
  "C09": "Integer beat units reach 2^5000. The numbers of 6-12 dotted values (within 1% of an undotted value) are analysed; the named base values and the module's base / tuplet tables are compared with the vocabulary. Every vocabulary value is also analysed as an exact Fraction.",
  "C10": "Comparison pairs also carry their own velocity and channel (half of them of equal pitch). The frequency of every spelling is compared with the pitch-number formula at three standard pitches; .name / .octave are assigned directly after the number was read. One frequency is read under four standard pitches in a row. One Note object reads walks of detuned neighbouring pitches. Integer and copy constructors are combined with out-of-range velocity / channel. Exact harmonics (1-16) of seven standard pitches are read back.",
  "C11": "Generated tracks contain chords in non-ascending order and entries held in a user subclass of NoteContainer. change_octave / octave_up / octave_down also start from octaves below 0 reached by transposition. The octave clamp is exercised on all 35 names plus triple accidentals. Tracks with notes at the edge of an attached instrument's range are transposed beyond it. Octave changes and entry replacements happen between track-level operations; up / octave_up / down on one Note.",
- "C13": "place_notes_at is also given its beat as an int, including whole-number beats where no entry starts. Every ordered pair of meters is applied to one Bar object; empty lists and empty containers are placed as content. Bars filled to within 1/1344 of their length are followed by remove-last and exact refills. Runs of sounding entries shorter than a 128th are built and notes added at the beat of one of them.",
- "C15": "Frequency lookups cover the top of the table and everything above it; notes returned by fft.find_notes are modified between calls; sibling scripts edit the lists / dictionaries instances hold in place (14 classes incl. the percussion instrument). Nested [name, octave(, dynamics)] argument items are compared deeply. Instrument ranges are set from note strings (list and tuple) in the sibling scripts and the argument checks. Sequencer play calls get the caller's channel list (percussion tracks included) among the argument checks.",
+ "C13": "place_notes_at is also given its beat as an int, including whole-number beats where no entry starts. Every ordered pair of meters is applied to one Bar object; empty lists and empty containers are placed as content. Bars filled to within 1/1344 of their length are followed by remove-last and exact refills. Runs of sounding entries shorter than a 128th are built and notes added at the beat of one of them. The identity current beat + space left = length is asserted in every meter, the unbounded one (length 0) included.",
+ "C15": "Frequency lookups cover the top of the table and everything above it; notes returned by fft.find_notes are modified between calls; sibling scripts edit the lists / dictionaries instances hold in place (14 classes incl. the percussion instrument). Nested [name, octave(, dynamics)] argument items are compared deeply. Instrument ranges are set from note strings (list and tuple) in the sibling scripts and the argument checks. Sequencer play calls get the caller's channel list (percussion tracks included) among the argument checks. One text note given to 2-3 selected tracks of a composition, then eight kinds of in-place edit of one track: the other tracks must not move.",
  "C16": "Generated scores also contain zero-bar tracks, sounding entries of 0 or 1 tick, unsorted chords and user subclasses of NoteContainer / MidiInstrument. Note-off events are compared including their velocity. Writers are called positionally, by keyword and with the documented defaults; generated bars may contain twin entries and one container object in two entries. Numbered instruments may be plain Instrument objects carrying instrument_nr. Names may contain NUL and control characters. Tracks may be on a MidiPercussionInstrument; compositions of 9-300 tracks; a track may end with a Bar object that already stands earlier in it.",
  "C17": "Generated scores also contain zero-bar tracks, unsorted chords and user subclasses; corrupted files include whole-tag swaps (the other chunk tag, foreign tags). MIDI instruments may carry a General MIDI name unrelated to their number; generated bars may contain twin entries and reused container objects. Numbered instruments may be plain Instrument objects carrying instrument_nr. Names may contain NUL and control characters. Tracks may be on a MidiPercussionInstrument; compositions of 9-300 tracks; one Bar object twice in a track.",
  "C18": "Generated music also contains unsorted chords and user subclasses of NoteContainer / MidiInstrument; control changes with non-integer numbers / values just outside 0..128. A second sequencer with its own observer exists during every case and must see nothing; play_Bar / play_Track are called positionally, by keyword and with defaults. Non-MIDI instruments may carry General MIDI names (still program 1). After the first pass the instruments are renamed and the tracks played again. One Bar object may stand twice in a track.",
- "C19": "Generated scores also contain unsorted chords and user subclasses of NoteContainer / MidiInstrument. Metadata texts keep leading / trailing blanks. Generated bars may contain twin entries and one container object in two entries (with different values). The LilyPond reader multiplies nested tuplet factors. Chords may hold two spellings of one pitch. Bars mixing tuplet kinds with 2-4 dotted short values (large divisions); one Bar object twice in a track.",
+ "C19": "Generated scores also contain unsorted chords and user subclasses of NoteContainer / MidiInstrument. Metadata texts keep leading / trailing blanks. Generated bars may contain twin entries and one container object in two entries (with different values). The LilyPond reader multiplies nested tuplet factors. Chords may hold two spellings of one pitch. Bars mixing tuplet kinds with 2-4 dotted short values (large divisions); one Bar object twice in a track. A third of the generated compositions carry an e-mail address; every combination of set / empty title, subtitle, author and e-mail is enumerated for both exporters.",
  "C20": "Compositions may hold one Bar object in two tracks on different tunings; the best chord fingering returned as a NoteContainer is validated through the notes' string / fret attributes. Chord entries in bars may carry a wished (string, fret) position on one note. Every note of a chord may carry a wished position (also stale ones); the documented Am example on the standard guitar anchors the chord-fingering clause. Entries that are unplayable only because of the fret span (with and without wished positions) must raise; the notes of the best chord fingering must be named as what their positions sound. find_frets is asked with every spelling of every pitch (across the octave line too).",
 }
 DEFAULT_NOTE = "Oracle = independent reference model under /verif/vlib/ref; bounds per DESIGN.md section 4."
